@@ -142,9 +142,9 @@ def call(env, cache, op, pool, partials):
                 cache[key] = env.from_string(tpl["src"], name=tpl["name"])
             t = cache[key]
         elif kind == "from_string":
-            t = env.from_string(tpl["src"], name=tpl["name"])
+            t = env.from_string(tpl["src"], name=tpl["name"], globals={"gv": f"G{op['d']}"})
         else:
-            t = env.get_template(tpl["name"])
+            t = env.get_template(tpl["name"], globals={"gv": f"G{op['d']}"})
         if kind == "analyze":
             a = t.analyze()
             return {"ok": True, "out": repr((sorted(a.variables), sorted(a.globals), sorted(a.filters), sorted(a.tags)))}
